@@ -32,10 +32,12 @@ var All = map[string]func(*Ctx){
 		c.rememberRevokeWire("C07.revoke-wire", "C07.revoke")
 		c.ctxUserFirst("C07.subject")
 		c.rememberOnlyOnTrue("C07.on-request")
+		c.oauthRememberLiteral("C07.on-request")
 	}),
 	"C08": seq(C08, func(c *Ctx) {
 		c.mwOutermost("C08.outermost")
 		c.apiStatusVerbatim("C08.api-status")
+		c.refusalConfigMapped("C08.refusal-config")
 	}),
 	"C09": seq(C09, (*Ctx).flushDiscipline, func(c *Ctx) { c.flushUnmodified("C09.queue") }),
 	"C10": C10,
